@@ -1905,7 +1905,7 @@ func (c *Ctx) reindexLast(rule string, names []string, clause string, discover b
 				return containsCall(info, m, func(_ *ast.CallExpr, fn *types.Func) bool {
 					return fn != nil && inRepo(fn) && fn != fi.Obj && c.reaches(fn, isRefresh, 4, map[*types.Func]bool{})
 				})
-			}, func(ret *ast.ReturnStmt) bool { return returnsNilError(info, ret) })
+			}, func(ret *ast.ReturnStmt) bool { return c.succeedsOnPath(info, fi.Decl.Body, ret) })
 			if !res.ok && bad == nil {
 				bad, esc = e, res.escape
 			}
@@ -1925,6 +1925,609 @@ func (c *Ctx) reindexLast(rule string, names []string, clause string, discover b
 		} else {
 			c.OK(rule, key, fi.Decl.Pos(), fmt.Sprintf("every successful exit after each of the %d structural edits passes a refresh of the derived data", len(edits))).Clause = clause
 		}
+	}
+	return n
+}
+
+// GUARD-LEN: a writer loop `for .. range X` that sits under a test of len(X) must run whenever X is
+// not empty: len(X) >= 1 implies the test (a redundant `if len(X) != 0` is fine; `== 0`, `!= 1`,
+// `> 1` silently drop comments of some trees).
+func (c *Ctx) guardLen(rule string, funcs []*FuncInfo, clause string) int {
+	n := 0
+	for _, fi := range funcs {
+		if fi == nil || fi.Decl.Body == nil {
+			continue
+		}
+		info := fi.Pkg.TypesInfo
+		per := 0
+		walkStack(fi.Decl.Body, func(nd ast.Node, stack []ast.Node) bool {
+			rs, ok := nd.(*ast.RangeStmt)
+			if !ok {
+				return true
+			}
+			xk := c.canon(info, rs.X, nil)
+			lenKey := "len(" + xk + ")"
+			conds, okc := c.pathConds(info, fi.Decl.Body, rs, true)
+			if !okc {
+				return true
+			}
+			var rel []cond
+			for _, cd := range flattenConds(conds) {
+				if cd.Expr != nil && strings.Contains(strings.ReplaceAll(c.canon(info, cd.Expr, nil), " ", ""), strings.ReplaceAll(lenKey, " ", "")) {
+					rel = append(rel, cd)
+				}
+			}
+			if len(rel) == 0 {
+				return true
+			}
+			n++
+			per++
+			key := fmt.Sprintf("%s/range %s#%d", funcName(fi.Obj), xk, per)
+			code := c.condsToBexpr(info, rel, nil)
+			imp, wit, _, err := gfImplies(bCmp(lenKey, token.GEQ, "1"), code)
+			if err != nil {
+				c.Undecided(rule, key, rs.Pos(), "guard shape not understood: "+err.Error())
+				return true
+			}
+			c.Check(imp, rule, key, rs.Pos(), "the loop runs whenever "+xk+" is not empty",
+				fmt.Sprintf("the loop over %s sits under `%s`, which is false for some non-empty %s (%s): their elements are never written", xk, code.String(), xk, wit)).Clause = clause
+			return true
+		})
+	}
+	return n
+}
+
+// COMMENT-STORED (go/cfg): in the Newick parser a comment text that was read without error is
+// attached to a node or a branch (AddComment with that text), or an error is raised, on every
+// path: no comment of the input is dropped silently.
+func (c *Ctx) commentStored(rule string, fi *FuncInfo, clause string) int {
+	if fi == nil || fi.Decl.Body == nil {
+		return 0
+	}
+	info := fi.Pkg.TypesInfo
+	n := 0
+	var g *fcfg
+	ast.Inspect(fi.Decl.Body, func(nd ast.Node) bool {
+		as, ok := nd.(*ast.AssignStmt)
+		if !ok || len(as.Rhs) != 1 || len(as.Lhs) != 2 {
+			return true
+		}
+		call, isCall := unparen(as.Rhs[0]).(*ast.CallExpr)
+		if !isCall {
+			return true
+		}
+		fn := calleeOf(info, call)
+		if fn == nil || fn.Name() != "consumeComment" || !inRepo(fn) {
+			return true
+		}
+		cv := identObj(info, as.Lhs[0])
+		if id, isId := as.Lhs[0].(*ast.Ident); isId && id.Name == "_" {
+			cv = nil
+		}
+		if cv == nil {
+			return true // the comment in front of the tree is not part of it
+		}
+		ev := identObj(info, as.Lhs[1])
+		n++
+		key := fmt.Sprintf("%s/comment#%d", funcName(fi.Obj), n)
+		if g == nil {
+			g = c.cfgOf(info, fi.Decl.Body)
+		}
+		res := mustPass(g, as.Pos(), func(m ast.Node) bool {
+			// stored
+			if containsCall(info, m, func(cl *ast.CallExpr, h *types.Func) bool {
+				if h == nil {
+					return false
+				}
+				// AddComment itself, or a helper of the repository that receives the comment and
+				// attaches it (and reports whether it could)
+				if h.Name() != "AddComment" && !(inRepo(h) && c.reaches(h, func(q *types.Func) bool { return q.Name() == "AddComment" && inRepo(q) }, 2, map[*types.Func]bool{})) {
+					return false
+				}
+				for _, a := range cl.Args {
+					if identObj(info, a) == cv {
+						return true
+					}
+				}
+				return false
+			}) {
+				return true
+			}
+			// or an error raised: `err = errors.New(..)` / fmt.Errorf
+			if as2, isAs := m.(*ast.AssignStmt); isAs && m != ast.Node(as) {
+				for i, l := range as2.Lhs {
+					if identObj(info, l) == ev && ev != nil && i < len(as2.Rhs) {
+						if _, isCall2 := unparen(as2.Rhs[i]).(*ast.CallExpr); isCall2 {
+							return true
+						}
+					}
+				}
+			}
+			return false
+		}, func(ret *ast.ReturnStmt) bool { return c.succeedsOnPath(info, fi.Decl.Body, ret) })
+		if res.ok {
+			c.OK(rule, key, as.Pos(), "the comment read here is attached to a node or a branch, or an error is raised, on every path").Clause = clause
+		} else {
+			_, ln := c.pos(res.escape)
+			c.Violation(rule, key, as.Pos(), fmt.Sprintf("the comment read here can reach the successful return at line %d without being attached to a node or a branch and without an error: it disappears from the tree", ln)).Clause = clause
+		}
+		return true
+	})
+	return n
+}
+
+// PARSED-STORED (go/cfg): a number parsed from the text (strconv.ParseFloat) in the Newick parser
+// can reach a setter of the tree (SetLength / SetSupport / SetPValue) that receives it, before the
+// variable is assigned again: no parsed value is computed for nothing.
+func (c *Ctx) parsedStored(rule string, fi *FuncInfo, clause string) int {
+	if fi == nil || fi.Decl.Body == nil {
+		return 0
+	}
+	info := fi.Pkg.TypesInfo
+	n := 0
+	var g *fcfg
+	ast.Inspect(fi.Decl.Body, func(nd ast.Node) bool {
+		as, ok := nd.(*ast.AssignStmt)
+		if !ok || len(as.Rhs) != 1 || len(as.Lhs) != 2 {
+			return true
+		}
+		call, isCall := unparen(as.Rhs[0]).(*ast.CallExpr)
+		if !isCall || !isFunc(calleeOf(info, call), "strconv", "", "ParseFloat") {
+			return true
+		}
+		v := identObj(info, as.Lhs[0])
+		if v == nil {
+			return true
+		}
+		n++
+		key := fmt.Sprintf("%s/%s#%d", funcName(fi.Obj), v.Name(), n)
+		if g == nil {
+			g = c.cfgOf(info, fi.Decl.Body)
+		}
+		b0, i0 := locate(g.g, as.Pos())
+		stored := false
+		if b0 != nil {
+			seen := map[*cfg.Block]bool{}
+			var walk func(b *cfg.Block, start int)
+			walk = func(b *cfg.Block, start int) {
+				for i := start; i < len(b.Nodes) && !stored; i++ {
+					m := b.Nodes[i]
+					if m == ast.Node(as) {
+						return
+					}
+					if containsCall(info, m, func(cl *ast.CallExpr, h *types.Func) bool {
+						if h == nil || !inRepo(h) || !strings.HasPrefix(h.Name(), "Set") {
+							return false
+						}
+						for _, a := range cl.Args {
+							if identObj(info, a) == v {
+								return true
+							}
+						}
+						return false
+					}) {
+						stored = true
+						return
+					}
+					if as2, isAs := m.(*ast.AssignStmt); isAs {
+						for _, l := range as2.Lhs {
+							if identObj(info, l) == v {
+								return
+							}
+						}
+					}
+				}
+				for _, s := range b.Succs {
+					if !seen[s] && !stored {
+						seen[s] = true
+						walk(s, 0)
+					}
+				}
+			}
+			walk(b0, i0+1)
+		}
+		// `a/b` labels: the part parsed decides the setter (part 0 is the support, part 1 the p-value)
+		if ix, isIx := unparen(call.Args[0]).(*ast.IndexExpr); isIx && stored {
+			if tv, has := info.Types[ix.Index]; has && tv.Value != nil {
+				part := constKey(tv.Value)
+				want := map[string]string{"0": "SetSupport", "1": "SetPValue"}[part]
+				got := ""
+				ast.Inspect(fi.Decl.Body, func(q ast.Node) bool {
+					if cl, isCl := q.(*ast.CallExpr); isCl && cl.Pos() > as.Pos() && got == "" {
+						if h := calleeOf(info, cl); h != nil && inRepo(h) && strings.HasPrefix(h.Name(), "Set") {
+							for _, a := range cl.Args {
+								if identObj(info, a) == v {
+									got = h.Name()
+								}
+							}
+						}
+					}
+					return true
+				})
+				if want != "" && got != "" && got != want {
+					c.Violation(rule, key+"/part", as.Pos(), fmt.Sprintf("part %s of a `support/p-value` label is parsed into `%s`, which is handed to %s: the writer puts the support first and the p-value second", part, v.Name(), got)).Clause = clause
+				}
+			}
+		}
+		c.Check(stored, rule, key, as.Pos(), "the parsed value can reach a setter of the tree",
+			fmt.Sprintf("the number parsed into `%s` here is never handed to a setter of the tree before `%s` is assigned again: the value written in the text is lost", v.Name(), v.Name())).Clause = clause
+		return true
+	})
+	return n
+}
+
+// TREE-ON-SUCCESS (go/cfg): a reader's Parse with a named tree result never returns "no error"
+// without having assigned the tree: every return reached where the error is nil (bare, or
+// `return tree, nil`) is preceded by a store into the tree result.
+func (c *Ctx) treeOnSuccess(rule string, fi *FuncInfo, clause string) int {
+	if fi == nil || fi.Decl.Body == nil || fi.Decl.Type.Results == nil {
+		return 0
+	}
+	info := fi.Pkg.TypesInfo
+	var treeRes types.Object
+	for _, f := range fi.Decl.Type.Results.List {
+		for _, nm := range f.Names {
+			if o := info.Defs[nm]; o != nil && !isErrorType(o.Type()) {
+				if _, isPtr := o.Type().(*types.Pointer); isPtr && treeRes == nil {
+					treeRes = o
+				}
+			}
+		}
+	}
+	if treeRes == nil {
+		return 0
+	}
+	g := c.cfgOf(info, fi.Decl.Body)
+	key := funcName(fi.Obj) + "/result-set-before-success"
+	res := mustPassFromEntryEx(g, func(m ast.Node) bool {
+		if as, ok := m.(*ast.AssignStmt); ok {
+			for _, l := range as.Lhs {
+				if identObj(info, l) == treeRes {
+					return true
+				}
+			}
+		}
+		return false
+	}, func(ret *ast.ReturnStmt) bool {
+		if ret != nil && len(ret.Results) > 0 {
+			// explicit results: only `return <treeRes>, ...` is the named result handed out
+			if identObj(info, ret.Results[0]) != treeRes {
+				return false
+			}
+		}
+		if ret != nil && errorJustRaised(info, fi.Decl.Body, ret) {
+			return false
+		}
+		return c.succeedsOnPath(info, fi.Decl.Body, ret) && c.errNilOnPath(info, fi.Decl.Body, ret)
+	})
+	if res.ok {
+		c.OK(rule, key, fi.Decl.Pos(), "every return reached with a nil error follows a store into "+treeRes.Name()).Clause = clause
+	} else {
+		_, ln := c.pos(res.escape)
+		c.Violation(rule, key, fi.Decl.Pos(), fmt.Sprintf("the return at line %d is reached with a nil error before %s is assigned: the caller receives neither a tree nor an error", ln, treeRes.Name())).Clause = clause
+	}
+	return 1
+}
+
+// errNilOnPath: for a bare return of a function with a named error result: the closest test of that
+// error on the path says it is nil, or there is no test at all after the last assignment... kept
+// simple: true unless the closest test says the error is non-nil.
+func (c *Ctx) errNilOnPath(info *types.Info, body *ast.BlockStmt, ret *ast.ReturnStmt) bool {
+	conds, ok := c.pathConds(info, body, ret, false)
+	if !ok {
+		return true
+	}
+	verdict := true
+	for _, cd := range flattenConds(conds) {
+		be, isBin := unparen0(cd.Expr).(*ast.BinaryExpr)
+		if !isBin || (be.Op != token.EQL && be.Op != token.NEQ) {
+			continue
+		}
+		isNil := func(x ast.Expr) bool { id, isId := unparen(x).(*ast.Ident); return isId && id.Name == "nil" }
+		var ev ast.Expr
+		switch {
+		case isNil(be.Y):
+			ev = be.X
+		case isNil(be.X):
+			ev = be.Y
+		default:
+			continue
+		}
+		if !isErrorType(info.TypeOf(ev)) {
+			continue
+		}
+		verdict = (be.Op == token.EQL) != cd.Neg
+	}
+	return verdict
+}
+
+// errorJustRaised: in the statement list of ret, a statement before it assigns an error variable
+// from a constructor call (errors.New / fmt.Errorf / any call) and nothing in between tests it.
+func errorJustRaised(info *types.Info, body *ast.BlockStmt, ret *ast.ReturnStmt) bool {
+	st := stackTo(body, ret)
+	for i := len(st) - 2; i >= 0; i-- {
+		var list []ast.Stmt
+		switch b := st[i].(type) {
+		case *ast.BlockStmt:
+			list = b.List
+		case *ast.CaseClause:
+			list = b.Body
+		default:
+			continue
+		}
+		for k := len(list) - 1; k >= 0; k-- {
+			if list[k].Pos() >= ret.Pos() {
+				continue
+			}
+			as, ok := list[k].(*ast.AssignStmt)
+			if !ok {
+				return false
+			}
+			for j, l := range as.Lhs {
+				if isErrorType(info.TypeOf(l)) && j < len(as.Rhs) {
+					if _, isCall := unparen(as.Rhs[j]).(*ast.CallExpr); isCall {
+						return true
+					}
+				}
+			}
+			return false
+		}
+		return false
+	}
+	return false
+}
+
+// MUST-EOT (go/cfg): the Newick Parse function does not report success before it has seen the end
+// of the tree: every return reached with a nil error passes a test of the current token against
+// EOT (trailing text is an error, the clean-up after the tree is not skipped).
+func (c *Ctx) mustSeeEOT(rule string, fi *FuncInfo, clause string) int {
+	if fi == nil || fi.Decl.Body == nil {
+		return 0
+	}
+	info := fi.Pkg.TypesInfo
+	g := c.cfgOf(info, fi.Decl.Body)
+	key := funcName(fi.Obj) + "/end-of-tree-before-success"
+	res := mustPassFromEntryEx(g, func(m ast.Node) bool {
+		found := false
+		ast.Inspect(m, func(q ast.Node) bool {
+			if be, ok := q.(*ast.BinaryExpr); ok && (be.Op == token.EQL || be.Op == token.NEQ) {
+				for _, side := range []ast.Expr{be.X, be.Y} {
+					if cn := constObj(info, side); cn != nil && cn.Name() == "EOT" {
+						found = true
+					}
+				}
+			}
+			return !found
+		})
+		return found
+	}, func(ret *ast.ReturnStmt) bool { return c.succeedsOnPath(info, fi.Decl.Body, ret) })
+	if res.ok {
+		c.OK(rule, key, fi.Decl.Pos(), "every return reached with a nil error has tested the token that follows the tree against EOT").Clause = clause
+	} else {
+		_, ln := c.pos(res.escape)
+		c.Violation(rule, key, fi.Decl.Pos(), fmt.Sprintf("the return at line %d reports success without the token after the tree having been tested against EOT: what follows the tree in the text is not looked at and the final clean-up of the tree is skipped", ln)).Clause = clause
+	}
+	return 1
+}
+
+// ID-GIVEN: the readers number the nodes and branches they create (the ids index the per-node and
+// per-branch tables of the library: distances to the root, transfer tallies). Every node obtained
+// from NewNode and every branch obtained from ConnectNodes in a reader receives SetId in the
+// statement list that creates it.
+func (c *Ctx) idGiven(rule string, funcs []*FuncInfo, clause string) int {
+	n := 0
+	for _, fi := range funcs {
+		if fi.Decl.Body == nil {
+			continue
+		}
+		info := fi.Pkg.TypesInfo
+		per := 0
+		walkStack(fi.Decl.Body, func(nd ast.Node, stack []ast.Node) bool {
+			as, ok := nd.(*ast.AssignStmt)
+			if !ok || len(as.Rhs) != 1 || len(as.Lhs) < 1 {
+				return true
+			}
+			call, isCall := unparen(as.Rhs[0]).(*ast.CallExpr)
+			if !isCall {
+				return true
+			}
+			fn := calleeOf(info, call)
+			if !(isRepoFunc(fn, "tree", "Tree", "NewNode") || isRepoFunc(fn, "tree", "Tree", "ConnectNodes")) {
+				return true
+			}
+			x := identObj(info, as.Lhs[0])
+			if x == nil {
+				return true
+			}
+			var rest []ast.Stmt
+			for i := len(stack) - 1; i >= 0; i-- {
+				var list []ast.Stmt
+				switch b := stack[i].(type) {
+				case *ast.BlockStmt:
+					list = b.List
+				case *ast.CaseClause:
+					list = b.Body
+				default:
+					continue
+				}
+				for k, s := range list {
+					if s == ast.Stmt(as) {
+						rest = list[k+1:]
+					}
+				}
+				if rest != nil {
+					break
+				}
+				// the creation may sit in an `if x = ...; cond {` header: look one level further out
+				for k, s := range list {
+					if nodeContains(s, as.Pos()) {
+						rest = append([]ast.Stmt{s}, list[k+1:]...)
+					}
+				}
+				break
+			}
+			n++
+			per++
+			key := fmt.Sprintf("%s/%s:=%s#%d", funcName(fi.Obj), x.Name(), fn.Name(), per)
+			given := false
+			for _, s := range rest {
+				ast.Inspect(s, func(m ast.Node) bool {
+					cl, isCl := m.(*ast.CallExpr)
+					if !isCl {
+						return true
+					}
+					sel, isSel := unparen(cl.Fun).(*ast.SelectorExpr)
+					if isSel && sel.Sel.Name == "SetId" && identObj(info, sel.X) == x {
+						given = true
+					}
+					return true
+				})
+			}
+			c.Check(given, rule, key, as.Pos(), "the new "+map[bool]string{true: "node", false: "branch"}[fn.Name() == "NewNode"]+" is numbered where it is created",
+				fmt.Sprintf("`%s` creates a %s that receives no id in this statement list: it keeps the 'no id' value -1, and the tables of the library indexed by id (distance to the root, per-branch tallies) are indexed out of range or share slot -1", c.src(as), map[bool]string{true: "node", false: "branch"}[fn.Name() == "NewNode"])).Clause = clause
+			return true
+		})
+	}
+	return n
+}
+
+// ROOT-REPLACED (go/cfg): where a function of package tree has established that a node X is the
+// root (`if t.Root() != X { return error }`) and later deletes X (delNode(X)), every path from
+// that test to a successful return installs another root first (SetRoot / a write of Tree.root):
+// otherwise the tree keeps pointing at a node that is no longer part of it.
+func (c *Ctx) rootReplaced(rule string, funcs []*FuncInfo, clause string) int {
+	n := 0
+	for _, fi := range funcs {
+		if fi.Decl.Body == nil {
+			continue
+		}
+		info := fi.Pkg.TypesInfo
+		var g *fcfg
+		per := 0
+		ast.Inspect(fi.Decl.Body, func(nd ast.Node) bool {
+			is, ok := nd.(*ast.IfStmt)
+			if !ok || is.Else != nil {
+				return true
+			}
+			be, isBin := unparen(is.Cond).(*ast.BinaryExpr)
+			if !isBin || be.Op != token.NEQ {
+				return true
+			}
+			isRootOf := func(e ast.Expr) bool {
+				if call, isCall := unparen(e).(*ast.CallExpr); isCall {
+					return isRepoFunc(calleeOf(info, call), "tree", "Tree", "Root")
+				}
+				if sel, isSel := unparen(e).(*ast.SelectorExpr); isSel {
+					return sel.Sel.Name == "root"
+				}
+				return false
+			}
+			var x types.Object
+			switch {
+			case isRootOf(be.X):
+				x = identObj(info, be.Y)
+			case isRootOf(be.Y):
+				x = identObj(info, be.X)
+			}
+			if x == nil || !isNodePtr(x.Type()) {
+				return true
+			}
+			// the body leaves with an error
+			leaves := false
+			for _, s := range is.Body.List {
+				if ret, isRet := s.(*ast.ReturnStmt); isRet && !returnsNilError(info, ret) {
+					leaves = true
+				}
+			}
+			if !leaves {
+				return true
+			}
+			// X deleted later in the function
+			deleted := false
+			for _, call := range callsIn(fi.Decl.Body, false) {
+				if call.Pos() > is.End() && isRepoFunc(calleeOf(info, call), "tree", "Tree", "delNode") && len(call.Args) == 1 && identObj(info, call.Args[0]) == x {
+					deleted = true
+				}
+			}
+			if !deleted {
+				return true
+			}
+			n++
+			per++
+			key := fmt.Sprintf("%s/%s#%d", funcName(fi.Obj), x.Name(), per)
+			if g == nil {
+				g = c.cfgOf(info, fi.Decl.Body)
+			}
+			res := mustPass(g, is.Cond.Pos(), func(m ast.Node) bool {
+				if containsCall(info, m, func(_ *ast.CallExpr, h *types.Func) bool { return isRepoFunc(h, "tree", "Tree", "SetRoot") }) {
+					return true
+				}
+				if as, isAs := m.(*ast.AssignStmt); isAs {
+					for _, l := range as.Lhs {
+						if sel, isSel := unparen(l).(*ast.SelectorExpr); isSel && sel.Sel.Name == "root" {
+							return true
+						}
+					}
+				}
+				return false
+			}, func(ret *ast.ReturnStmt) bool { return c.succeedsOnPath(info, fi.Decl.Body, ret) })
+			if res.ok {
+				c.OK(rule, key, is.Pos(), "the root, which is deleted further down, is replaced on every successful path").Clause = clause
+			} else {
+				_, ln := c.pos(res.escape)
+				c.Violation(rule, key, is.Pos(), fmt.Sprintf("%s is the root here and is deleted further down, but the successful return at line %d can be reached without another node having been installed as the root: the tree keeps a root that is no longer part of it", x.Name(), ln)).Clause = clause
+			}
+			return true
+		})
+	}
+	return n
+}
+
+// NAMED: the generators name the tips they create. One obligation per node created by NewNode in a
+// generator that is given a name (SetName with that node as receiver later in the function); the
+// number of such obligations per generator is a reference count (a deleted SetName lowers it).
+func (c *Ctx) namedCreations(rule string, funcs []*FuncInfo, clause string) int {
+	n := 0
+	for _, fi := range funcs {
+		if fi.Decl.Body == nil {
+			continue
+		}
+		info := fi.Pkg.TypesInfo
+		per := 0
+		ast.Inspect(fi.Decl.Body, func(nd ast.Node) bool {
+			as, ok := nd.(*ast.AssignStmt)
+			if !ok || len(as.Rhs) != 1 || len(as.Lhs) != 1 {
+				return true
+			}
+			call, isCall := unparen(as.Rhs[0]).(*ast.CallExpr)
+			if !isCall || !isRepoFunc(calleeOf(info, call), "tree", "Tree", "NewNode") {
+				return true
+			}
+			x := identObj(info, as.Lhs[0])
+			if x == nil {
+				return true
+			}
+			names := 0
+			ast.Inspect(fi.Decl.Body, func(m ast.Node) bool {
+				cl, isCl := m.(*ast.CallExpr)
+				if !isCl || cl.Pos() < as.Pos() {
+					return true
+				}
+				if sel, isSel := unparen(cl.Fun).(*ast.SelectorExpr); isSel && sel.Sel.Name == "SetName" && identObj(info, sel.X) == x {
+					// a name, not the "" that turns a former tip into an inner node
+					if tv, has := info.Types[cl.Args[0]]; !(has && tv.Value != nil && tv.Value.Kind() == constant.String && constant.StringVal(tv.Value) == "") {
+						names++
+					}
+				}
+				return true
+			})
+			for k := 0; k < names; k++ {
+				n++
+				per++
+				c.OK(rule, fmt.Sprintf("%s/%s#%d", funcName(fi.Obj), x.Name(), per), as.Pos(), "the node created here is given a name").Clause = clause
+			}
+			return true
+		})
 	}
 	return n
 }
